@@ -408,4 +408,38 @@ def call (s : St) (mcls : String) (cls : Nat) (cyc : Bool) (args : List ArgTok) 
     | Option.none => .error .badArgs
     | some gs => construct s cls cyc gs.flatten nid
 
+/-! ### Keyword call forms (`FunsorMeta.__call__`, terms.py: "Convert kwargs to args") -/
+
+def lookupKw (kws : List (String × List ArgTok)) (n : String) : Option (List ArgTok) :=
+  match kws with
+  | [] => Option.none
+  | kv :: rest => if kv.1 = n then some kv.2 else lookupKw rest n
+
+/-- `if kwargs: for name in cls._ast_fields[len(args):]: args.append(kwargs.pop(name));
+    assert not kwargs`: the keyword values are appended in FIELD order, whatever order the call
+    wrote them in; a missing field (KeyError) or a left-over keyword (assert) is `none`. -/
+def kwargsToArgs (fields : List String) (pos : List (List ArgTok))
+    (kws : List (String × List ArgTok)) : Option (List (List ArgTok)) :=
+  if kws.isEmpty then some pos
+  else
+    let rest := fields.drop pos.length
+    match rest.mapM (lookupKw kws) with
+    | Option.none => Option.none
+    | some vs => if kws.all (fun kv => decide (kv.1 ∈ rest)) then some (pos ++ vs) else Option.none
+
+/-- What the mutant of the seeded defect does instead: values in CALL order. -/
+def kwargsToArgsCallOrder (pos : List (List ArgTok)) (kws : List (String × List ArgTok)) :
+    List (List ArgTok) := pos ++ kws.map (·.2)
+
+/-- Constructor call with keyword arguments: kwargs -> args, metaclass normalisation, `construct`. -/
+def callKw (s : St) (fields : List String) (mcls : String) (cls : Nat) (cyc : Bool)
+    (pos : List (List ArgTok)) (kws : List (String × List ArgTok)) (nid : Id) :
+    Except Err (St × Id) :=
+  match kwargsToArgs fields pos kws with
+  | Option.none => .error .badArgs
+  | some groups =>
+    match normArgs mcls groups with
+    | Option.none => .error .badArgs
+    | some gs => construct s cls cyc gs.flatten nid
+
 end FV.C07
